@@ -1,5 +1,6 @@
 import MetadorModel.Gen.GroupMethods
 import MetadorModel.Model.Paths
+import MetadorModel.Model.PathsAlias
 /-!
 Obligations on the method table extracted from `container/wrappers.py` on every run
 (`Gen/GroupMethods.lean`). A new or refactored method that hands a user-controlled path to
@@ -39,6 +40,27 @@ theorem table_nonempty :
     Gen.groupMethods.any (fun m => m.name == "copy" && m.shape.pathArgs.length == 2 &&
       m.shape.guards == [.readOnly, .path 0, .path 1]) = true ∧
     Gen.groupMethods.any (fun m => m.name == "move" && m.shape.pathArgs.length == 2) = true := by
+  decide
+
+/-- `MetadorGroup.__setitem__` refuses, before anything else, every value whose class names or
+references another node (`HardLink`, `SoftLink`, `ExternalLink`, `Reference` and subclasses):
+the class lists tested by its leading `if …: raise` statements contain all of `Paths.linkTypes`.
+The name-based guard and the name-based listing filter are only sufficient because no such value
+is ever stored. -/
+theorem link_values_refused : Gen.setitemValueTestFirst = true ∧
+    ∀ ty ∈ Paths.linkTypes, ty ∈ Gen.refusedValueTypes := by decide
+
+/-- … and every value that h5py would store as a named datatype (`numpy.dtype`,
+`h5py.Datatype`): such a node is neither group nor dataset and `_wrap_if_node` would hand it out
+as the raw h5py object (F35). -/
+theorem type_values_refused : ∀ ty ∈ Paths.typeTypes, ty ∈ Gen.refusedValueTypes := by decide
+
+/-- `MetadorNode._guard_path` consists of exactly the two `if …: raise` statements that
+`Paths.guardPath` / `Paths.guardPathV` mirror, the first one being the test
+`M.is_internal_path(path)` on the argument as it was handed over — nothing (no early `return`,
+no type test, no conversion) comes before it. -/
+theorem guard_path_shape : Gen.guardPathStmts =
+    ["raise-if M.is_internal_path(path)", "raise-if self.acl[NodeAcl.local_only] and path[0] == '/'"] := by
   decide
 
 end MetadorModel.Bridge.GroupMethods
